@@ -3,7 +3,7 @@ CONSTANTS
   NF = 3
   Mods = {"A", "B"}
   BindOptions = {{}, {"len=user"}, {"len=none"}, {"len=zero"}, {"float=user"}, {"float=user", "len=user"}, {"float=user", "len=none"}, {"float=user", "len=zero"}, {"float=none"}, {"float=none", "len=user"}, {"float=none", "len=none"}, {"float=none", "len=zero"}, {"float=zero"}, {"float=zero", "len=user"}, {"float=zero", "len=none"}, {"float=zero", "len=zero"}, {"int=user"}, {"int=user", "len=user"}, {"int=user", "len=none"}, {"int=user", "len=zero"}, {"int=user", "float=user"}, {"int=user", "float=user", "len=user"}, {"int=user", "float=user", "len=none"}, {"int=user", "float=user", "len=zero"}, {"int=user", "float=none"}, {"int=user", "float=none", "len=user"}, {"int=user", "float=none", "len=none"}, {"int=user", "float=none", "len=zero"}, {"int=user", "float=zero"}, {"int=user", "float=zero", "len=user"}, {"int=user", "float=zero", "len=none"}, {"int=user", "float=zero", "len=zero"}, {"int=none"}, {"int=none", "len=user"}, {"int=none", "len=none"}, {"int=none", "len=zero"}, {"int=none", "float=user"}, {"int=none", "float=user", "len=user"}, {"int=none", "float=user", "len=none"}, {"int=none", "float=user", "len=zero"}, {"int=none", "float=none"}, {"int=none", "float=none", "len=user"}, {"int=none", "float=none", "len=none"}, {"int=none", "float=none", "len=zero"}, {"int=none", "float=zero"}, {"int=none", "float=zero", "len=user"}, {"int=none", "float=zero", "len=none"}, {"int=none", "float=zero", "len=zero"}, {"int=zero"}, {"int=zero", "len=user"}, {"int=zero", "len=none"}, {"int=zero", "len=zero"}, {"int=zero", "float=user"}, {"int=zero", "float=user", "len=user"}, {"int=zero", "float=user", "len=none"}, {"int=zero", "float=user", "len=zero"}, {"int=zero", "float=none"}, {"int=zero", "float=none", "len=user"}, {"int=zero", "float=none", "len=none"}, {"int=zero", "float=none", "len=zero"}, {"int=zero", "float=zero"}, {"int=zero", "float=zero", "len=user"}, {"int=zero", "float=zero", "len=none"}, {"int=zero", "float=zero", "len=zero"}}
-  Faults = {"none", "py_before", "guppy_before", "py_after", "guppy_after", "bad_return"}
+  Faults = {"none", "py_before", "guppy_before", "intr_before", "py_after", "guppy_after", "intr_after", "bad_return"}
   AllowNest = TRUE
   MaxCompiles = 3
   EmitHist = TRUE
